@@ -717,6 +717,44 @@ def probe_truncated_normal() -> dict:
             "ops": [n.op_type for n in model.graph.node]}
 
 
+def probe_function_plugin() -> dict:
+    """FunctionPlugin's wrapper (`@onnx_function`) forwards every call form (it is generic), but what
+    happens to a *static* Python keyword?  A module whose __call__ branches on a bool parameter."""
+    from jax2onnx import to_onnx, onnx_function
+    from jax2onnx.plugins import plugin_system as ps
+    from flax import nnx
+    import irtools
+    before = set(ps.PLUGIN_REGISTRY), set(ps.ONNX_FUNCTION_PLUGIN_REGISTRY)
+    out: dict = {}
+    try:
+        @onnx_function
+        class VerifGate(nnx.Module):
+            def __call__(self, x, flag=True):
+                if flag:
+                    return x * 2.0
+                return x + 1.0
+
+        g = VerifGate()
+        x = np.ones((3,), np.float32)
+        for name, call in (("default", lambda a: g(a)), ("flag=False", lambda a: g(a, flag=False)),
+                           ("positional False", lambda a: g(a, False))):
+            want = np.asarray(call(x))
+            try:
+                m = to_onnx(call, [(3,)])
+                got = np.asarray(irtools.run_ort(m, {m.graph.input[0].name: x})[0])
+                out[name] = "agree" if np.allclose(got, want) else f"DISAGREE ort={got.tolist()} jax={want.tolist()}"
+            except (NotImplementedError, ValueError) as e:
+                out[name] = f"explicit: {type(e).__name__}"
+            except Exception as e:
+                out[name] = f"{type(e).__name__}: {str(e)[:100]}"
+    finally:
+        for k in set(ps.PLUGIN_REGISTRY) - before[0]:
+            ps.PLUGIN_REGISTRY.pop(k, None)
+        for k in set(ps.ONNX_FUNCTION_PLUGIN_REGISTRY) - before[1]:
+            ps.ONNX_FUNCTION_PLUGIN_REGISTRY.pop(k, None)
+    return out
+
+
 # ----------------------------------------------------------------------------- the check
 
 
@@ -822,7 +860,9 @@ def run(chk: Check) -> None:
     chk.info("callables_without_signature", live["nosig"])
     chk.log(f"{len(pairs)} pairs ({sum(1 for p in pairs if p['generic'])} generic substitutes), "
             f"{len(flagged)} flagged, {len(live['missing'])} targets absent, {len(live['nosig'])} without signature")
+    t1 = time.time()
     proved = chk.prove(MODS, checker=thorough)
+    chk.log(f"extraction {round(t1 - chk.t0, 1)} s, Lean build+audit {round(time.time() - t1, 1)} s")
 
     # ---- the model against Python itself and against the live signature objects
     validate_model(chk, rng, 750 if not thorough else 8000)
@@ -878,6 +918,9 @@ def run(chk: Check) -> None:
             else:
                 stats["exported"] += 1
     chk.info("replay", stats)
+    chk.log(f"replayed {stats['representatives']} representative forms of {len(flagged)} flagged pairs: "
+            f"{stats['confirmed']} fail while tracing, {stats['original_rejects']} rejected by the original itself, "
+            f"{stats['not_replayed']} not replayed (t={round(time.time() - chk.t0, 1)} s)")
     chk.info("replay_details", details)
     chk.add("disagreements_checked", stats["representatives"])
 
@@ -911,6 +954,15 @@ def run(chk: Check) -> None:
                                 "parameters": ",".join(it["unread_parameters"])},
                                f"substitute of {it['target']} never reads {it['unread_parameters']}",
                                {"source": "AST pass over the wrapper body"}):
+                unlisted += 1
+
+    fp = probe_function_plugin()
+    chk.info("function_plugin_static_keyword_probe", fp)
+    for name, res in fp.items():
+        if res != "agree" and not res.startswith("explicit"):
+            if not chk.finding({"target": "onnx_function:__call__", "kind": "static_keyword", "call": name},
+                               f"@onnx_function module with __call__(self, x, flag=True) branching on flag, called "
+                               f"with {name}: {res}", {"probe": fp}):
                 unlisted += 1
 
     if live["errors"]:
